@@ -50,8 +50,25 @@ def parseTamper (s : String) : Option (Tamper CSc CPt) :=
       else if k == "dEb" then (scOfHex v).map fun x => { tm with dEBlinding := x }
       else if k == "dA" then (scOfHex v).map fun x => { tm with dA := x }
       else if k == "dB" then (scOfHex v).map fun x => { tm with dB := x }
+      else if k.startsWith "z" then some tm      -- nonce modifier, see `applyNonceMods`
       else none
     | _ => none) Tamper.none
+
+/-- degenerate nonce choices of an adversarial prover, given in the tamper string:
+    `zsL=1` / `zsR=1` zero the vectors `s_L` / `s_R`, `zSb=1`, `zT1b=1`, `zT2b=1` zero the blinding of
+    `S`, `T_1`, `T_2`, `zAb=1` that of `A` (with both vectors zero: `S`, `T_1`, `T_2` become the identity) -/
+def applyNonceMods (s : String) (nz : Nonces CSc) : Nonces CSc :=
+  (csv s).foldl (fun (nz : Nonces CSc) kv =>
+    match kv.splitOn "=" with
+    | [k, _] =>
+      if k == "zsL" then { nz with sL := nz.sL.map fun _ => 0 }
+      else if k == "zsR" then { nz with sR := nz.sR.map fun _ => 0 }
+      else if k == "zSb" then { nz with sBlinding := 0 }
+      else if k == "zT1b" then { nz with t1Blinding := 0 }
+      else if k == "zT2b" then { nz with t2Blinding := 0 }
+      else if k == "zAb" then { nz with aBlinding := 0 }
+      else nz
+    | _ => nz) nz
 
 def widthOf (instr : String) : Option Nat :=
   match instr with
@@ -88,7 +105,7 @@ def opRmprove (gens : Nat → List CPt × List CPt) (a : List String) : String :
       | some aL =>
         if ctx.length ≠ 264 ∨ aL.length ≠ nm then "bad-op" else
         let g := gens nm
-        let proof := Range.prove (contextTranscript CT ctx) g.1 g.2 bls aL opens (noncesFromSeed seed nm) tm
+        let proof := Range.prove (contextTranscript CT ctx) g.1 g.2 bls aL opens (applyNonceMods tamper (noncesFromSeed seed nm)) tm
         let body := s!"verify range{w} {hexOut (ctx ++ proof)}"
         if exp == "-" then s!"emit:{body}" else s!"emit:!{exp} {body}"
       | none => "bad-op"
